@@ -110,6 +110,11 @@ def exchange_faults(ctx):
         ev = r[pos - n - 1] if 0 <= pos - n - 1 < len(r) else None
         if r[0]["n"] in flagged or anomalies(r):
             pass      # reported above
+        elif ev and ev.get("ev") == "ret" and ev.get("outcome") == "err":
+            # the machine's guard of RetErr is the property-level statement itself: an error needs a failure during that very call
+            # (a fault that fired, or a connection that died while idle); a call that fails without one did not use a fresh connection
+            ctx.violation("faults:error-without-a-failure-during-the-call:%s/%s/%s" % (r[0]["pt"], r[0]["kind"], "every-connection" if r[0]["persist"] else "once"),
+                          "fault plan %s: the exchange returns an error (%s) although nothing failed during it: %s" % (json.dumps(r[0]), ev.get("class"), json.dumps(r[max(0, pos - n - 14): pos - n])), {"run": r})
         elif t.violated:
             ctx.violation("faults:invariant:" + "+".join(t.violated), "fault plan %s: TLC: %s violated on the recorded run at %s" % (json.dumps(r[0]), t.violated, json.dumps(ev)), {"run": r})
         else:
